@@ -55,9 +55,10 @@ def check_loop(chk, inst, res, where, *, jaxpr=P("jaxpr"), eqns=None, const_wrap
     outvals = ow[0][2][2]
     prim = ("attr", E, "primitive")
     # single results wrapped
-    wrapped = is_t(outvals, "phi") and outvals[1] == ("un", "not", ("attr", prim, "multiple_results")) and is_t(outvals[2], "list") and len(outvals[2][1]) == 1 and outvals[2][1][0] == outvals[3]
+    # canonical polarity: phi(multiple_results, outvals, [outvals])
+    wrapped = is_t(outvals, "phi") and outvals[1] == ("attr", prim, "multiple_results") and is_t(outvals[3], "list") and len(outvals[3][1]) == 1 and outvals[3][1][0] == outvals[2]
     chk.require(wrapped, rule, inst + "/wrap-single", "single results wrapped in a list", derived=show(outvals)[:160], expected="outvals = [outvals] iff not eqn.primitive.multiple_results", where=where)
-    core = outvals[3] if wrapped else outvals
+    core = outvals[2] if wrapped else outvals
     gbp = ("call", ("attr", prim, "get_bind_params"), (("attr", E, "params"),), ())
     invals = ("call", G("jax.util.safe_map"), (None, ("attr", E, "invars")), ())
     leaves = phi_leaves(core)
